@@ -200,6 +200,38 @@ func ruleC20(w *World) {
 	// shifts, the rotation amounts are — per round — five times 1 (θ) plus the 24 ρ offsets, the χ step uses `&^` only, and
 	// the ι table holds the 24 round constants of the standard
 	w.ruleKeccakStructure("C20.R6", repo)
+	// R7: code shared by the build-tagged variants but written over a type that differs between them (the sponge's
+	// storage: [17]uint64 for the native-byte-order variant, [136]byte for the generic one) means the same thing in
+	// both: the sponge buffer discipline (C13.R6: appends, buffer-full test, padding zero fill over bytes bufSize..rate) is
+	// decided separately in the default and in the purego configuration
+	w.floor("C20.R7", 6)
+	for _, cfg := range []string{"default", "purego"} {
+		wd, err := load(LoadCfg{Name: cfg, Dir: repo, Env: mustCfg(cfg, repo).Env, Flags: mustCfg(cfg, repo).Flags, Pats: []string{"./hash"}})
+		if err != nil {
+			w.undecided("C20.R7", "sponge@"+cfg, token.NoPos, err.Error())
+			continue
+		}
+		saved := gWorld
+		gWorld = wd
+		tmp := &Out{Floors: map[string]int{}, Stats: map[string]int{}}
+		wd.out = tmp
+		func() {
+			defer func() {
+				if r := recover(); r != nil {
+					w.undecided("C20.R7", "sponge@"+cfg, token.NoPos, fmt.Sprint("analysis of the sponge under this configuration failed: ", r))
+				}
+			}()
+			ruleC13(wd)
+		}()
+		gWorld = saved
+		for _, o := range tmp.Obligations {
+			if o.Rule == "C13.R6" && o.Key != "floor" {
+				o.Rule = "C20.R7"
+				o.Key += "@" + cfg
+				w.out.Obligations = append(w.out.Obligations, o)
+			}
+		}
+	}
 	// R5: code selected by build constraints reads only the bytes it is given: no slice in a build-tagged file of hash/
 	// and random/ is re-sliced past its length (what lies beyond is stale, history-dependent memory that the sibling
 	// implementation never looks at) — the slice-extension rule of C09.R2(f), per configuration
